@@ -201,16 +201,17 @@ class Ctx:
             g[f"Obj{k}"] = o
         self.g = g
         self.nrule = 0
+        self.quote_late = True
         src = ""
         for k, d in enumerate(case.get("datas", [])):
-            src += f"class D{k}{self.sfx}(Schema):\n"
+            base = f"D{d['base']}{self.sfx}" if d.get("base") is not None else "Schema"
+            src += f"class D{k}{self.sfx}({base}):\n"
+            body = ""
             if d.get("opts"):
                 g[f"O{k}"] = make_options(d["opts"])
-                src += f"    __options__ = O{k}\n"
-            if not d["fields"]:
-                src += "    pass\n"
+                body += f"    __options__ = O{k}\n"
             for i, f in enumerate(d["fields"]):
-                ann = self.expr(f["ty"], k)
+                ann = self.ann(f, k)
                 kw = {}
                 if "default" in f:
                     kw["default"] = c12.dec(f["default"], self.enums)
@@ -221,12 +222,81 @@ class Ctx:
                 kw.update(cons_attrs(f.get("fcons"), self))
                 if kw:
                     g[f"F{k}_{i}"] = Field(**kw)
-                    src += f"    {f['name']}: {ann} = F{k}_{i}\n"
+                    body += f"    {f['name']}: {ann} = F{k}_{i}\n"
                 else:
-                    src += f"    {f['name']}: {ann}\n"
+                    body += f"    {f['name']}: {ann}\n"
+            for i, ov in enumerate(d.get("overrides") or []):
+                # an inherited typed field re-declared WITHOUT annotation: a bare default, or a bare Field(...)
+                if ov["kind"] == "default":
+                    g[f"OV{k}_{i}"] = c12.dec(ov["default"], self.enums)
+                else:
+                    kw = dict(cons_attrs(ov.get("fcons"), self))
+                    if "default" in ov:
+                        kw["default"] = c12.dec(ov["default"], self.enums)
+                    g[f"OV{k}_{i}"] = Field(**kw)
+                body += f"    {ov['name']} = OV{k}_{i}\n"
+            src += body or "    pass\n"
+        # the top declaration (both collect_errors settings) comes BEFORE the late classes: a string annotation naming one
+        # of them can only be evaluated at first use
+        via = case.get("via")
+        if via in ("field", "param", "return", "fn"):
+            from utype import Param
+            for c in (0, 1):
+                g[f"TOPO{c}"] = make_options(case.get("opts") or {}, bool(c))
+                fc = cons_attrs(case.get("fcons"), self)
+                if via == "field":
+                    g["TOPF"] = Field(**fc) if fc else None
+                    src += f"class TopS{c}(Schema):\n    __options__ = TOPO{c}\n    f: {self.ann(case, -1)}" + (" = TOPF\n" if fc else "\n")
+                elif via == "param":
+                    g["TOPF"] = Param(**fc) if fc else None
+                    src += f"@utype.parse(options=TOPO{c})\ndef topf{c}(f: {self.ann(case, -1)}" + (" = TOPF" if fc else "") + "):\n    return f\n"
+                elif via == "return":
+                    src += f"@utype.parse(options=TOPO{c})\ndef topr{c}(f) -> {self.ann(case, -1)}:\n    return f\n"
+                else:
+                    fn = case["fn"]
+                    parts, names = [], []
+                    for i, f in enumerate(fn["params"]):
+                        kw = dict(cons_attrs(f.get("fcons"), self))
+                        if "default" in f:
+                            kw["default"] = c12.dec(f["default"], self.enums)
+                        names.append(f["name"])
+                        if kw:
+                            g[f"P{i}"] = Param(**kw)
+                            parts.append(f"{f['name']}: {self.ann(f, -1)} = P{i}")
+                        else:
+                            parts.append(f"{f['name']}: {self.ann(f, -1)}")
+                    if fn.get("varargs") is not None:
+                        parts.append(f"*rest: {self.ann({'ty': fn['varargs']}, -1)}")
+                    if fn.get("varkw") is not None:
+                        parts.append(f"**extra: {self.ann({'ty': fn['varkw']}, -1)}")
+                    body = "{'params': {" + ", ".join(f"'{n}': {n}" for n in names) + "}, 'varargs': " + \
+                        ("list(rest)" if fn.get("varargs") is not None else "[]") + ", 'varkw': " + \
+                        ("dict(extra)" if fn.get("varkw") is not None else "{}") + "}"
+                    src += f"@utype.parse(options=TOPO{c})\ndef topfn{c}({', '.join(parts)}):\n    return {body}\n"
+        for k, l in enumerate(case.get("lates") or []):
+            r = l["rule"]
+            base = cls_name(r["base"]) if r.get("base") else None
+            src += f"class L{k}{self.sfx}(" + (f"{base}, " if base else "") + "Rule):\n"
+            attrs = cons_attrs(r.get("cons"), self)
+            if not attrs:
+                src += "    pass\n"
+            for n, (name, val) in enumerate(attrs.items()):
+                g[f"LC{k}_{n}"] = val
+                src += f"    {name} = LC{k}_{n}\n"
+        self.src = src
         if src:
             exec(compile(src, self.mod.__name__, "exec"), g)
         self.datas = [g[f"D{k}{self.sfx}"] for k in range(len(case.get("datas", [])))]
+
+    def ann(self, f, cur) -> str:
+        """annotation source of a field / parameter descriptor; `strann`: the whole annotation written as a string"""
+        if f.get("strann"):
+            self.quote_late = False
+            try:
+                return repr(self.expr(f["ty"], None))
+            finally:
+                self.quote_late = True
+        return self.expr(f["ty"], cur)
 
     def close(self):
         sys.modules.pop(self.mod.__name__, None)
@@ -246,7 +316,10 @@ class Ctx:
             return cls_name(d)
         if "data" in d:
             k = d["data"]
-            return f'"D{k}{self.sfx}"' if (cur is not None and k >= cur) else f"D{k}{self.sfx}"
+            return f'"D{k}{self.sfx}"' if (cur is not None and cur >= 0 and k >= cur) else f"D{k}{self.sfx}"
+        if "late" in d:
+            name = f"L{d['late']}{self.sfx}"
+            return f'"{name}"' if self.quote_late else name
         if "rule" in d:
             r = d["rule"]
             bases = [leaf_class(r["base"], self)] if r.get("base") else []
@@ -462,6 +535,46 @@ def check_cons(cons, r, node):
             raise Viol("constraint", node, _tn(r), name)
 
 
+def eff_fields(datas, k) -> list:
+    """the declared fields of data class k: inherited ones, with the overrides of the classes on the way down.  A bare
+    default keeps the inherited annotation (and nothing else of the old Field); a bare Field(...) keeps the annotation and
+    brings its own constraints."""
+    d = datas[k]
+    fields = {}
+    if d.get("base") is not None:
+        for f in eff_fields(datas, d["base"]):
+            fields[f["name"]] = f
+    for ov in d.get("overrides") or []:
+        old = fields[ov["name"]]
+        f = {"name": ov["name"], "ty": old["ty"]}
+        if ov["kind"] == "field" and ov.get("fcons"):
+            f["fcons"] = ov["fcons"]
+        if "default" in ov:
+            f["default"] = ov["default"]
+        fields[ov["name"]] = f
+    for f in d["fields"]:
+        fields[f["name"]] = f
+    return list(fields.values())
+
+
+def conforms_fn(fn, res, ctx, opts):
+    """a decorated function: every parameter the body saw conforms to its annotation and its Param constraints (or is the
+    declared default), every extra positional argument to the annotation of *args, every extra keyword to that of **kwargs"""
+    if not (isinstance(res, dict) and set(res) == {"params", "varargs", "varkw"}):
+        raise Viol("type", "any", _tn(res))
+    for f in fn["params"]:
+        x = res["params"].get(f["name"])
+        if "default" in f and canon(enc(x, ctx)) == canon(f["default"]):
+            continue
+        conforms(f["ty"], x, ctx, opts, 1)
+        if x is not None:
+            check_cons(f.get("fcons"), x, f["ty"])
+    for x in res["varargs"]:
+        conforms(fn["varargs"], x, ctx, opts, 1)
+    for x in res["varkw"].values():
+        conforms(fn["varkw"], x, ctx, opts, 1)
+
+
 def conforms(d, r, ctx, opts, depth=0):
     """raises Viol when `r` does not conform to the declared descriptor `d`"""
     if depth > 60:
@@ -473,12 +586,15 @@ def conforms(d, r, ctx, opts, depth=0):
         if not isinstance(r, cls):
             raise Viol("type", d, _tn(r))
         return
+    if "late" in d:
+        conforms(ctx.case["lates"][d["late"]], r, ctx, opts, depth + 1)
+        return
     if "data" in d:
         cls = ctx.datas[d["data"]]
         if not isinstance(r, cls):
             raise Viol("type", d, _tn(r))
         decl = ctx.case["datas"][d["data"]]
-        for f in decl["fields"]:
+        for f in eff_fields(ctx.case["datas"], d["data"]):
             if f["name"] in r:
                 x = dict.__getitem__(r, f["name"])
                 if "default" in f:                    # declared defaults are trusted (utype hands out a copy)
@@ -490,7 +606,8 @@ def conforms(d, r, ctx, opts, depth=0):
                     except Exception:
                         pass
                 conforms(f["ty"], x, ctx, decl.get("opts") or {}, depth + 1)
-                check_cons(f.get("fcons"), x, d) if x is not None else None
+                if x is not None:
+                    check_cons(f.get("fcons"), x, f["ty"] if isinstance(f["ty"], dict) else d)
             elif f.get("required", "default" not in f):
                 raise Viol("absent", d, f["name"])
         return
@@ -602,8 +719,13 @@ def build_call(case, ctx, collect):
     options = make_options(o, collect)
     g = ctx.g
     d = case["ty"]
+    c = 1 if collect else 0
     if via in ("transform", "call"):
-        T = eval(ctx.expr(d), g)
+        ctx.quote_late = False
+        try:
+            T = eval(ctx.expr(d), g)
+        finally:
+            ctx.quote_late = True
         from utype.parser.rule import LogicalType
         if via == "call" and isinstance(T, LogicalType) and T not in ctx.datas:
             return (lambda v: T(v)), T, Options()
@@ -612,23 +734,17 @@ def build_call(case, ctx, collect):
         cls = ctx.datas[d["data"]]
         return (lambda v: cls(**v)), cls, None
     if via == "field":
-        g["TOPO"] = options
-        src = f"class TopS(Schema):\n    __options__ = TOPO\n    f: {ctx.expr(d)}\n"
-        exec(compile(src, ctx.mod.__name__, "exec"), g)
-        S = g["TopS"]
-        return (lambda v: dict.__getitem__(S(f=v), "f")), ("field", S), options
+        S = g[f"TopS{c}"]
+        return (lambda v: dict.__getitem__(S(f=v), "f")), ("field", S), g[f"TOPO{c}"]
     if via == "param":
-        g["TOPO"] = options
-        src = f"@utype.parse(options=TOPO)\ndef topf(f: {ctx.expr(d)}):\n    return f\n"
-        exec(compile(src, ctx.mod.__name__, "exec"), g)
-        fn = g["topf"]
-        return (lambda v: fn(f=v)), ("param", fn), options
+        fn = g[f"topf{c}"]
+        return (lambda v: fn(f=v)), ("param", fn), g[f"TOPO{c}"]
     if via == "return":
-        g["TOPO"] = options
-        src = f"@utype.parse(options=TOPO)\ndef topr(f) -> {ctx.expr(d)}:\n    return f\n"
-        exec(compile(src, ctx.mod.__name__, "exec"), g)
-        fn = g["topr"]
-        return (lambda v: fn(f=v)), ("return", fn), options
+        fn = g[f"topr{c}"]
+        return (lambda v: fn(f=v)), ("return", fn), g[f"TOPO{c}"]
+    if via == "fn":
+        fn = g[f"topfn{c}"]
+        return (lambda v: fn(*v["args"], **v["kwargs"])), ("fn", fn), g[f"TOPO{c}"]
     raise ValueError(via)
 
 
@@ -637,6 +753,8 @@ def introspect(handle, ctx, options):
     from utype import Options
     if isinstance(handle, tuple):
         kind, obj = handle
+        if kind == "fn":
+            raise Unsupported("function with typed *args / **kwargs (oracle only)")
         p = obj.__parser__
         p.resolve_forward_refs()
         if kind == "return":
@@ -647,6 +765,13 @@ def introspect(handle, ctx, options):
     if handle in ctx.datas and options is None:
         return {"data": ctx.datas.index(handle)}, None
     return tree(handle, ctx), opts_of(options)
+
+
+def dec_case_value(case, ctx):
+    if case["via"] == "fn":
+        v = case["value"]
+        return {"args": [dec(x, ctx) for x in v["args"]], "kwargs": {k: dec(x, ctx) for k, x in v["kwargs"].items()}}
+    return dec(case["value"], ctx)
 
 
 def impl(case):
@@ -662,14 +787,18 @@ def impl(case):
         except Exception as e:
             return {"decl": f"{type(e).__name__}: {e}"[:200]}
         try:
-            value = dec(case["value"], ctx)
+            value = dec_case_value(case, ctx)
         except Exception as e:
             return {"decl": f"value: {type(e).__name__}: {e}"[:200]}
         if case["via"] == "init" and not (isinstance(value, dict) and all(isinstance(k, str) for k in value)):
             return {"decl": "init needs a str-keyed dict"}
+        if case["via"] == "fn":
+            if not (isinstance(value, dict) and isinstance(value.get("args"), list) and isinstance(value.get("kwargs"), dict)
+                    and all(isinstance(k, str) for k in value["kwargs"])):
+                return {"decl": "fn needs {'args': [...], 'kwargs': {str: ...}}"}
         out["out"], live = _run(lambda: thunk(value), ctx)
         if thunk_c is not None and case["via"] != "init":
-            value2 = dec(case["value"], ctx)
+            value2 = dec_case_value(case, ctx)
             out["out_collect"], live_c = _run(lambda: thunk_c(value2), ctx)
         # the tree utype built (after the first parse: forward references are resolved by then)
         try:
@@ -691,7 +820,12 @@ def impl(case):
             for key, res in (("out", live), ("out_collect", locals().get("live_c"))):
                 if key in out and "ok" in out[key]:
                     try:
-                        conforms(case["ty"], res, ctx, o)
+                        if case["via"] == "fn":
+                            conforms_fn(case["fn"], res, ctx, o)
+                        else:
+                            conforms(case["ty"], res, ctx, o)
+                            if res is not None:
+                                check_cons(case.get("fcons"), res, case["ty"])      # constraints given at the use site
                     except Viol as v:
                         out.setdefault("viol", {})[key] = v.info
         return out
@@ -940,7 +1074,7 @@ def pyprims_for(case, io) -> dict:
 
 
 def model_line(case, io):
-    if "tree" not in io:
+    if "tree" not in io or case["via"] == "fn":
         return None
     line = {"env": io["env"], "fuel": FUEL, "prims": {}, "pyprims": pyprims_for(case, io)}
     if case["via"] == "init":
@@ -1102,6 +1236,17 @@ def gen_cons(rng, base, allow_lax=True):
             return cons
         if r < 0.22:
             add("enum", [num(base) for _ in range(rng.randint(1, 3))])
+            return cons
+        if r < 0.34:
+            # digit counting on its own (or with a lower bound only): numbers of any magnitude reach the validator
+            m = rng.choice([1, 2, 3, 4, 6])
+            if rng.random() < 0.3:
+                add("ge", {"int": 0, "float": 0.0, "Decimal": Decimal(0)}[base])
+            if base != "int" and rng.random() < 0.3:
+                dp = rng.choice([0, 1, 2])
+                add("decimal_places", dp)
+                m += dp
+            add("max_digits", m)
             return cons
         # bounds: one lower, one upper, of one type (int is tolerated for float / Decimal origins and float for int)
         bt = rng.choice({"int": [int, int, int, float], "float": [float, float, int], "Decimal": [Decimal, int]}[base])
@@ -1370,6 +1515,12 @@ def _near(rng, b):
     return out
 
 
+# numbers in every spelling: exponent forms (positive and negative exponents), huge / tiny magnitudes, negative zero
+SPELLINGS = [1e16, "1e16", b"2.5e+20", 1e22, "12e15", 1234567.5, "99999999", Decimal("1E+5"), "1E+10", Decimal("123E+2"),
+             "12E+3", "1e9", Decimal("5E+30"), 1e300, "7e21", 1e-7, "1e-7", Decimal("1E-7"), Decimal("0E+3"), -0.0, "-0",
+             "-0.0", Decimal("-0"), 10 ** 20, -(10 ** 18), "1_000", 5e-324, "0.1e1", "+1.50E+1", Decimal("15E-1"), 2.5e15]
+
+
 def _cons_values(rng, base, cons):
     """python values steered at the constraints of a rule"""
     vals = []
@@ -1377,12 +1528,15 @@ def _cons_values(rng, base, cons):
         name, b = c[0], pyval.decode(c[1])
         if name in ("gt", "ge", "lt", "le", "const", "enum"):
             vals += _near(rng, b)
+            if rng.random() < 0.3:
+                vals += SPELLINGS
         elif name == "multiple_of":
             k = rng.randint(-3, 6)
             vals += [k * b, k * b + 1, str(k * b), float(k * b), Decimal(k * b)]
         elif name in ("max_digits", "decimal_places"):
             vals += [Decimal(s) for s in ("1.5", "12.34", "0.001", "123.456", "99.99", "9.995", "100", "1E+2", "0.10")]
             vals += ["12.340", 1.25, 12.5, 123, "1.50", 0.125, 100.5]
+            vals += SPELLINGS
         elif name in ("length", "max_length", "min_length"):
             for n in {max(0, b - 1), b, b + 1}:
                 if base == "str" or base is None:
@@ -1507,7 +1661,35 @@ def gen_value(rng, d, ctx_unused, good=0.75, datas=None, depth=0):
         return gen_value(rng, rng.choice(d["args"]), None, good, datas, depth + 1)
     if "data" in d:
         return gen_data_value(rng, d["data"], datas, depth)
+    if "late" in d and d["late"] < len(_LATES[0]):
+        return gen_value(rng, _LATES[0][d["late"]], None, good, datas, depth)
     return rng.choice(pools()["str_misc"])
+
+
+_LATES = [[]]          # the late classes of the case being generated (gen_value resolves {"late": k} through it)
+
+
+def _base_of(ty, lates):
+    if isinstance(ty, dict):
+        if "late" in ty and ty["late"] < len(lates):
+            return _base_of(lates[ty["late"]], lates)
+        if "rule" in ty:
+            return (ty["rule"].get("base") or {}).get("t")
+        if "t" in ty:
+            return ty["t"]
+        if "gen" in ty:
+            return GEN_BASE[ty["gen"]]
+    return None
+
+
+def _as_text(j):
+    try:
+        v = c12.dec(j, None)
+        if isinstance(v, (int, float, Decimal)) and not isinstance(v, bool):
+            return E(str(v))
+    except Exception:
+        pass
+    return j
 
 
 def gen_data_value(rng, k, datas, depth=0):
@@ -1515,10 +1697,24 @@ def gen_data_value(rng, k, datas, depth=0):
         return {"m": []}
     decl = datas[k]
     pairs = []
-    for f in decl["fields"]:
+    for f in eff_fields(datas, k):
         r = rng.random()
         if r < (0.25 if ("default" in f or f.get("required") is False) else 0.04):
             continue
+        if f.get("fcons") and rng.random() < 0.5:
+            base = _base_of(f["ty"], _LATES[0])
+            vals = _cons_values(rng, base, f["fcons"])
+            try:
+                pairs.append([E(f["name"]), E(rng.choice(vals))])
+                continue
+            except Exception:
+                pass
+        if (_LATES[0] or decl.get("base") is not None or any("base" in x for x in datas)) and rng.random() < 0.6:
+            pv = pick_valid(rng, f["ty"], _LATES[0])
+            if pv is not None:
+                # (a valid instance, or its text: converted on the way in)
+                pairs.append([E(f["name"]), pv if rng.random() < 0.6 else _as_text(pv)])
+                continue
         if depth > 2 and isinstance(f["ty"], dict) and ("opt" in f["ty"] or "gen" in f["ty"]):
             v = None if "opt" in f["ty"] else {"q": [], "k": "list"}
         else:
@@ -1576,7 +1772,242 @@ def _jsonish(rng, j):
 VIAS = ["transform", "transform", "call", "field", "field", "param", "return"]
 
 
+LATE_BASES = ["int", "int", "float", "Decimal", "str"]
+
+
+def _strict(cons):
+    return [c[:2] for c in cons]
+
+
+def gen_fcons(rng, base, cons):
+    """constraints given at the use site (`Field(...)` / `Param(...)`) that are compatible with those of the class"""
+    names = {c[0] for c in cons}
+    out = []
+    if base in ("int", "float", "Decimal"):
+        if "const" in names or "enum" in names:
+            return []
+        # a bound given in Field(...) for a Rule-subclass annotation must be of the class's own number type
+        num = {"int": lambda x: int(x), "float": float, "Decimal": lambda x: Decimal(str(x))}[base]
+        lows = [pyval.decode(c[1]) for c in cons if c[0] in ("gt", "ge")]
+        highs = [pyval.decode(c[1]) for c in cons if c[0] in ("lt", "le")]
+        if any(type(x) is not type(num(0)) for x in lows + highs):
+            return []                       # (min and max bounds must be of one type)
+        if not highs:
+            lo = lows[0] if lows else 0
+            out.append([rng.choice(["le", "lt"]), PV(num(lo) + num(rng.choice([3, 10, 100])))])
+        elif not lows:
+            hi = highs[0]
+            out.append(["ge", PV(num(hi) - num(rng.choice([3, 10, 100])))])
+        elif "max_digits" not in names and base != "float":
+            out.append(["max_digits", PV(rng.choice([2, 3, 5]))])
+    elif base == "str":
+        if not names & {"length", "max_length", "min_length", "const", "enum"}:
+            out.append(["max_length", PV(rng.choice([1, 2, 4]))])
+    elif base in ("list", "tuple", "set"):
+        out.append(["max_length", PV(rng.choice([1, 2, 3]))])
+    return out
+
+
+def pick_valid(rng, ty, lates=()):
+    """an encoded value that is an instance of the (scalar) declared type and satisfies its strict constraints, or None"""
+    base = _base_of(ty, list(lates))
+    cons = []
+    t = ty
+    if isinstance(t, dict) and "late" in t:
+        t = lates[t["late"]]
+    if isinstance(t, dict) and "rule" in t:
+        cons = t["rule"].get("cons") or []
+    if base not in ("int", "float", "Decimal", "str", "bool"):
+        return None
+    cls = {"int": int, "float": float, "Decimal": Decimal, "str": str, "bool": bool}[base]
+    cands = [x for x in _cons_values(rng, base, cons) if type(x) is cls]
+    cands += {"int": [1, 2, 5, 10, 20, 50], "float": [0.5, 1.0, 2.5, 10.0], "Decimal": [Decimal("1"), Decimal("2.5"), Decimal("10")],
+              "str": ["a", "ab", "AB", "123"], "bool": [True, False]}[base]
+    rng.shuffle(cands)
+    for x in cands:
+        try:
+            if all(sat(n, x, b) for n, b in strict_cons(cons)):
+                return E(x)
+        except Exception:
+            continue
+    return None
+
+
+def gen_late_case(rng):
+    """types reached through string annotations naming classes defined LATER in the module, with Field / Param constraints
+    at the use site: data-class fields, function parameters and return annotations"""
+    lates = []
+    for _ in range(rng.choice([1, 1, 2])):
+        b = rng.choice(LATE_BASES)
+        lates.append({"rule": {"base": {"t": b}, "cons": _strict(gen_cons(rng, b, allow_lax=False))}})
+    _LATES[0] = lates
+    try:
+        def use(allow_gen=True):
+            k = rng.randrange(len(lates))
+            ty = {"late": k}
+            base = lates[k]["rule"]["base"]["t"]
+            fc = gen_fcons(rng, base, lates[k]["rule"]["cons"]) if rng.random() < 0.75 else []
+            f = {"ty": ty}
+            if allow_gen and rng.random() < 0.3:
+                kind = rng.choice(["list", "list", "opt", "tuple"])
+                if kind == "opt":
+                    f["ty"] = {"opt": ty, "style": "typing"}
+                    fc = []
+                else:
+                    f["ty"] = {"gen": {"list": "list", "tuple": "vtuple"}[kind], "args": [ty], "style": "typing"}
+                    fc = gen_fcons(rng, "list", []) if rng.random() < 0.6 else []
+                if rng.random() < 0.5:
+                    f["strann"] = True
+            if fc:
+                f["fcons"] = fc
+            return f
+        r = rng.random()
+        if r < 0.45:
+            fields = []
+            for name in FIELD_NAMES[: rng.randint(1, 3)]:
+                f = use()
+                f["name"] = name
+                if rng.random() < 0.25:
+                    dv = pick_valid(rng, f["ty"], lates)
+                    if dv is not None and not f.get("fcons"):
+                        f["default"] = dv
+                fields.append(f)
+            d = {"fields": fields}
+            if rng.random() < 0.3:
+                d["opts"] = gen_opts(rng, unsafe_ok=False)
+            datas = [d]
+            case = {"ty": {"data": 0}, "via": rng.choice(["init", "init", "transform"]), "datas": datas,
+                    "value": gen_data_value(rng, 0, datas), "enums": ENUMS, "lates": lates}
+            if case["via"] == "init" and not (isinstance(case["value"], dict) and "m" in case["value"] and
+                                               all(isinstance(p[0], dict) and "s" in p[0] and not p[0].get("c") for p in case["value"]["m"])):
+                case["via"] = "transform"
+            return case
+        f = use(allow_gen=r < 0.8)
+        via = rng.choice(["field", "param", "param", "return"])
+        case = {"ty": f["ty"], "via": via, "enums": ENUMS, "lates": lates}
+        if f.get("strann"):
+            case["strann"] = True
+        if f.get("fcons") and via != "return":
+            case["fcons"] = f["fcons"]
+        base = _base_of(f["ty"], lates)
+        vals = _cons_values(rng, base, case.get("fcons")) if case.get("fcons") and rng.random() < 0.6 else None
+        if vals:
+            try:
+                case["value"] = E(rng.choice(vals))
+            except Exception:
+                vals = None
+        if not vals:
+            pv = pick_valid(rng, f["ty"], lates) if rng.random() < 0.6 else None
+            case["value"] = (pv if rng.random() < 0.6 else _as_text(pv)) if pv is not None else gen_value(rng, f["ty"], None, 0.85)
+        o = gen_opts(rng, unsafe_ok=False)
+        if via in ("param", "return"):
+            o.pop("addition", None)
+        if o:
+            case["opts"] = o
+        return case
+    finally:
+        _LATES[0] = []
+
+
+def gen_inherit_case(rng):
+    """a chain of three or four data classes: typed fields declared at the top, re-declared further down WITHOUT annotation
+    by a bare default or a bare Field(...)"""
+    depth = rng.choice([3, 3, 4])
+    top = []
+    for name in FIELD_NAMES[: rng.randint(2, 3)]:
+        b = rng.choice(["int", "int", "float", "str", "Decimal"])
+        ty = {"rule": {"base": {"t": b}, "cons": _strict(gen_cons(rng, b, allow_lax=False))}} if rng.random() < 0.7 else {"t": b}
+        f = {"name": name, "ty": ty}
+        dv = pick_valid(rng, ty)
+        if dv is not None and rng.random() < 0.7:
+            f["default"] = dv
+        top.append(f)
+    datas = [{"fields": top}]
+    for lvl in range(1, depth):
+        d = {"base": lvl - 1, "fields": []}
+        if rng.random() < 0.5:
+            d["fields"].append({"name": f"n{lvl}", "ty": leaf(rng, False, subs=False), "required": False})
+        if lvl == depth - 1 or rng.random() < 0.3:
+            ovs = []
+            for f in rng.sample(top, rng.randint(1, len(top))):
+                dv = pick_valid(rng, f["ty"])
+                if dv is None:
+                    continue
+                if rng.random() < 0.5:
+                    ovs.append({"name": f["name"], "kind": "default", "default": dv})
+                else:
+                    base = _base_of(f["ty"], [])
+                    cons = (f["ty"].get("rule") or {}).get("cons") or [] if isinstance(f["ty"], dict) else []
+                    ov = {"name": f["name"], "kind": "field", "fcons": gen_fcons(rng, base, cons)}
+                    if rng.random() < 0.6:
+                        ov["default"] = dv
+                    ovs.append(ov)
+            if ovs:
+                d["overrides"] = ovs
+        if rng.random() < 0.3:
+            d["opts"] = gen_opts(rng, unsafe_ok=False)
+        datas.append(d)
+    k = depth - 1 if rng.random() < 0.8 else rng.randrange(depth)
+    case = {"ty": {"data": k}, "via": rng.choice(["init", "init", "transform", "field"]), "datas": datas,
+            "value": gen_data_value(rng, k, datas), "enums": ENUMS}
+    if case["via"] == "init" and not (isinstance(case["value"], dict) and "m" in case["value"] and
+                                       all(isinstance(p[0], dict) and "s" in p[0] and not p[0].get("c") for p in case["value"]["m"])):
+        case["via"] = "transform"
+    return case
+
+
+def gen_fn_case(rng):
+    """a decorated function with `*args: T` / `**kwargs: T` under decorator Options"""
+    def pty():
+        r = rng.random()
+        if r < 0.5:
+            return {"t": rng.choice(["int", "int", "str", "float", "bool", "Decimal"])}
+        if r < 0.85:
+            b = rng.choice(["int", "str", "float"])
+            return {"rule": {"base": {"t": b}, "cons": _strict(gen_cons(rng, b, allow_lax=False))}}
+        return {"gen": "list", "args": [{"t": "int"}], "style": "typing"}
+    params = []
+    for name in ["p", "q"][: rng.randint(0, 2)]:
+        f = {"name": name, "ty": pty()}
+        params.append(f)
+    for f in params[1:]:
+        dv = pick_valid(rng, f["ty"])
+        if dv is not None and rng.random() < 0.5:
+            f["default"] = dv
+    fn = {"params": params, "varargs": pty() if rng.random() < 0.5 else None, "varkw": pty() if rng.random() < 0.8 else None}
+    if fn["varargs"] is None and fn["varkw"] is None:
+        fn["varkw"] = pty()
+    def pval(f):
+        pv = pick_valid(rng, f["ty"]) if rng.random() < 0.85 else None
+        return pv if pv is not None else gen_value(rng, f["ty"], None, 0.95)
+    args = [pval(f) for f in params if "default" not in f or rng.random() < 0.7]
+    if len(args) < len([f for f in params if "default" not in f]):
+        args = [pval(f) for f in params]
+    if fn["varargs"] is not None and len(args) == len(params):
+        args += [gen_value(rng, fn["varargs"], None, 0.7) for _ in range(rng.choice([0, 1, 2]))]
+    kwargs = {}
+    if fn["varkw"] is not None:
+        for name in rng.sample(["x", "y", "zz"], rng.choice([0, 1, 1, 2])):
+            kwargs[name] = gen_value(rng, fn["varkw"], None, 0.6)
+    o = gen_opts(rng, unsafe_ok=rng.random() < 0.15)
+    if fn["varkw"] is None:
+        o.pop("addition", None)
+    elif rng.random() < 0.5:
+        o["addition"] = "yes"
+    case = {"ty": "any", "via": "fn", "fn": fn, "value": {"args": args, "kwargs": kwargs}, "enums": ENUMS}
+    if o:
+        case["opts"] = o
+    return case
+
+
 def gen_case(rng):
+    r0 = rng.random()
+    if r0 < 0.10:
+        return gen_late_case(rng)
+    if r0 < 0.17:
+        return gen_inherit_case(rng)
+    if r0 < 0.24:
+        return gen_fn_case(rng)
     r = rng.random()
     datas = gen_datas(rng) if r < 0.35 else []
     if datas and rng.random() < 0.6:
@@ -1654,11 +2085,41 @@ def _enum_members(j, acc=None):
     return acc
 
 
+def _has_empty(j) -> bool:
+    if isinstance(j, dict):
+        if ("q" in j and not j["q"]) or ("m" in j and not j["m"]):
+            return True
+        return any(_has_empty(v) for v in j.values())
+    if isinstance(j, list):
+        return any(_has_empty(v) for v in j)
+    return False
+
+
 def _has_key(j, key) -> bool:
     if isinstance(j, dict):
         return key in j or any(_has_key(v, key) for v in j.values())
     if isinstance(j, list):
         return any(_has_key(v, key) for v in j)
+    return False
+
+
+_NEG_ZERO = re.compile(r"^\s*-0*(\.0*)?([eE][+-]?\d+)?\s*$")
+
+
+def negative_zero(case) -> bool:
+    """`-0.0` has no form in Conv.lean's float codec (`FloatV.fin 0 0` is the only zero), so texts such as `str(-0.0)` differ:
+    inputs holding a negative zero in any spelling get no verdict from the comparison (the oracle still sees them)"""
+    vals = []
+    v = case["value"]
+    for j in ([v] if case["via"] != "fn" else list(v["args"]) + list(v["kwargs"].values())):
+        _walk_json_values(j, vals)
+    for x in vals:
+        if isinstance(x, float) and x == 0 and math.copysign(1, x) < 0:
+            return True
+        if isinstance(x, Decimal) and x.is_zero() and x.is_signed():
+            return True
+        if isinstance(x, str) and "-" in x and any(_NEG_ZERO.match(t) for t in re.split(r"[\s,;:=&\[\](){}\"']+", x) + [x]):
+            return True
     return False
 
 
@@ -1737,6 +2198,8 @@ def _shape(d, depth=0) -> str:
         return "obj"
     if "data" in d:
         return "data"
+    if "late" in d:
+        return "late"
     if "rule" in d:
         b = d["rule"].get("base")
         names = sorted(("lax_" if len(c) > 2 and c[2] else "") + c[0] for c in d["rule"].get("cons") or [])
@@ -1826,7 +2289,7 @@ class C01(Check):
     def compare(self, case, io, mo):
         if "decl" in io or "unsupported" in io or mo is None:
             return None
-        if nested_mixin_member(case):
+        if nested_mixin_member(case) or negative_zero(case):
             return None
         if io.get("hang") or io.get("crash"):
             return "worker hang / crash"
@@ -1910,10 +2373,13 @@ class C01(Check):
                 except Exception:
                     pass
             texts = [x for x in vals if isinstance(x, str)] + [str(int(x)) for x in vals if isinstance(x, (bool, int))]
+            if any(x is None or (isinstance(x, str) and x == "") or (isinstance(x, (int, float)) and x == 0) for x in vals) \
+                    or _has_empty(case["value"]):
+                texts.append("0")           # `_attempt_from_number` turns a falsy value into 0, which may be rendered as text on the way
             tokens = [t for x in texts for t in re.split(r"[\s,;:=&\[\](){}\"']+", x)] + texts     # texts are split / parsed into items
             if base["t"] == "int" and any(x.strip().lower() in c12.TRUE_WORDS + c12.FALSE_WORDS for x in tokens):
                 return "subclass-result-plain"            # to_integer: the literals 0 / 1 for the boolean words
-            if base["t"] == "time" and (texts or _has_key(case["value"], "dt")):
+            if base["t"] == "time" and (texts or _has_key(case["value"], "dt") or _has_key(case["value"], "date")):
                 return "subclass-result-plain"            # to_time: data.time() / to_datetime(text).time()
             if base["t"] == "timedelta" and texts:
                 return "subclass-result-plain"            # to_timedelta: sign * t(**kw) for a duration text
@@ -1945,7 +2411,19 @@ class C01(Check):
         if isinstance(d, dict) and "t" in d and "ok" in o and canon(o["ok"]) == canon(case["value"]):
             return None                                   # exact-type pass-through of an unconstrained leaf
         opts = case.get("opts") or {}
-        return json.dumps([_shape(d), case["via"], _vclass(case["value"]), sorted(opts.items()), _out_class(o)])
+        shape = _shape(d)
+        if case["via"] == "fn":
+            fn = case["fn"]
+            shape = "fn(" + ",".join(_shape(f["ty"]) for f in fn["params"]) + ";*" + (_shape(fn["varargs"]) if fn.get("varargs") is not None else "-") + \
+                ";**" + (_shape(fn["varkw"]) if fn.get("varkw") is not None else "-") + ")"
+            vc = f"{len(case['value']['args'])}+{len(case['value']['kwargs'])}"
+        else:
+            vc = _vclass(case["value"])
+        if case.get("lates"):
+            shape += "|late:" + ",".join(_shape(l) for l in case["lates"]) + ("|fcons" if case.get("fcons") else "")
+        if any(x.get("base") is not None for x in case.get("datas", [])):
+            shape += "|inherit:" + str(len(case["datas"])) + ":" + ",".join(ov["kind"] for x in case["datas"] for ov in x.get("overrides") or [])
+        return json.dumps([shape, case["via"], vc, sorted(opts.items()), _out_class(o)])
 
     def distribution(self, case, io):
         if not isinstance(io, dict):
@@ -1953,7 +2431,16 @@ class C01(Check):
         if "decl" in io:
             return "declaration rejected"
         d = case["ty"]
-        top = "leaf" if (d == "any" or "t" in d or "enum" in d or "obj" in d) else next(k for k in ("rule", "gen", "opt", "comb", "data") if k in d)
+        if case["via"] == "fn":
+            top = "fn(" + ("*" if case["fn"].get("varargs") is not None else "") + ("**" if case["fn"].get("varkw") is not None else "") + ")"
+        elif d == "any" or "t" in d or "enum" in d or "obj" in d:
+            top = "leaf"
+        else:
+            top = next((k for k in ("late", "rule", "gen", "opt", "comb", "data") if k in d), "?")
+        if top == "data" and any(x.get("base") is not None for x in case.get("datas", [])):
+            top = "data-inherit"
+        if case.get("lates") and top != "late":
+            top += "+late"
         if top == "gen":
             top = d["gen"]
         if top == "comb":
